@@ -67,6 +67,8 @@ def body(run):
                     # inferred is not kept (everything else as specified)
                     if (e["err"] == "" and a[0]["data"] in (b[0]["data"], "empty")) or (e["err"] != "" and a[0]["data"] == t[0]["data"]):
                         return "bind:single-result-column:inferred-name-not-kept"
+                if e["err"] == "" and any(not x.get("adopted", True) for x in a):
+                    return "bind:parameters-not-adopted"
                 if e["err"] == "":
                     return "bind:accepted-incompatible"
                 return "bind:refused-or-misbound"
